@@ -189,7 +189,23 @@ impl<E: El, I: Item<E>> Chain<E, I> {
         } else {
             let (v, s) = ad.into_pair();
             let handed = kids_im(&v);
-            if handed != view_now {
+            if cfg.stack_mid_item {
+                // The old consumer is gone and may have been in the middle of
+                // an item: what counts is that the values handed over are the
+                // stage's view of the input it has taken so far - and that
+                // nothing already contained in them is emitted again (the
+                // quiescent checks that follow see that).
+                *self.reps.last_mut().unwrap() = v.iter().cloned().collect();
+                let g = self.segs.len() - 1;
+                self.provisional.borrow_mut()[g] = None;
+                if let Err(e) = self.seg_check(g, cx, st, true) {
+                    if is_known_shape(&e.sig) {
+                        return Err(e);
+                    }
+                    return Err(viol("C12", cx.step, format!("into-parts-not-current-view/{}", self.stages[k - 1].kind.name()), format!("initial values handed to the next stage: {}", e.detail)));
+                }
+                st.mark("stacked_on_an_adapter_in_the_middle_of_an_item");
+            } else if handed != view_now {
                 return Err(viol(
                     "C12",
                     cx.step,
@@ -471,7 +487,24 @@ impl<E: El, I: Item<E>> Chain<E, I> {
         self.log.borrow_mut().clear();
         let (flag, waker) = flag_waker();
         let mut tcx = Context::from_waker(&waker);
-        let r = self.top.poll_next(&mut tcx);
+        let r = match std::panic::catch_unwind(std::panic::AssertUnwindSafe(|| self.top.poll_next(&mut tcx))) {
+            Ok(r) => r,
+            Err(payload) => {
+                // A stage panicked (typically while applying an inapplicable
+                // diff from the stage below to its own buffer). What the taps
+                // logged before the panic tells which stage went wrong first.
+                let events = std::mem::take(&mut *self.log.borrow_mut());
+                for ev in events {
+                    self.process(ev, cx, st)?;
+                }
+                for g in 0..self.segs.len() {
+                    if let Some(pv) = self.first_divergence(g) {
+                        return Err(pv);
+                    }
+                }
+                std::panic::resume_unwind(payload);
+            }
+        };
         st.transitions += 1;
         let events = std::mem::take(&mut *self.log.borrow_mut());
         let src_end_before = self.src_ended;
@@ -756,7 +789,9 @@ impl<E: El, I: Item<E>> World<E, I> {
                     self.drain_all(st)?;
                 }
                 Tok::Stack => {
-                    self.drain_all(st)?;
+                    if !self.cfg.stack_mid_item {
+                        self.drain_all(st)?;
+                    }
                     let cx = Ctx { step: self.step, prop: self.cfg.prop, model: &self.vec, alive: self.alive };
                     self.main.stack(&self.cfg, &cx, st)?;
                 }
